@@ -248,8 +248,27 @@ Definition pointy_easy (p : nat) : Prop :=
   forall c, nth_error inp p = Some c ->
     beqb c x3f = false /\ (beqb c x21 = true -> peek_eq inp (S p) x2d && peek_eq inp (p + 2) x2d = true).
 
+(* what is needed of the three forms that take `scanner match + k` bytes (p = position behind the `<`) *)
+Definition pointy_hard_ok (p : nat) : Prop :=
+  (forall m, nth_error inp p = Some x21 -> nth_error inp (S p) = Some x5b ->
+     scan_html_cdata (skipn (p + 2) inp) = Some m -> Nat.ltb (len inp) (p + m + 5) = false -> LB (p + (m + 5)))
+  /\ (forall m, nth_error inp p = Some x21 -> peek_eq inp (S p) x2d && peek_eq inp (p + 2) x2d = false ->
+        scan_html_declaration (skipn (S p) inp) = Some m -> Nat.ltb (len inp) (p + m + 2) = false -> LB (p + (m + 2)))
+  /\ (nth_error inp p = Some x3f ->
+        Nat.ltb (len inp) (p + opt0 (scan_html_processing_instruction (skipn (S p) inp)) + 3) = false ->
+        LB (p + (opt0 (scan_html_processing_instruction (skipn (S p) inp)) + 3))).
+
+Lemma pointy_easy_hard_ok p : pointy_easy p -> pointy_hard_ok p.
+Proof.
+  intro H. split; [|split].
+  - intros m E1 E2 _ _. destruct (H _ E1) as [_ K]. specialize (K eq_refl).
+    apply andb_true_iff in K. destruct K as [K _]. apply peek_eq_nth in K. rewrite E2 in K. discriminate K.
+  - intros m E1 E2 _ _. destruct (H _ E1) as [_ K]. specialize (K eq_refl). rewrite K in E2. discriminate E2.
+  - intros E1 _. destruct (H _ E1) as [K _]. discriminate K.
+Qed.
+
 Lemma last_pointy s s' n :
-  nth_error inp (pos s) = Some x3c -> pointy_easy (S (pos s)) ->
+  nth_error inp (pos s) = Some x3c -> pointy_hard_ok (S (pos s)) ->
   handle_pointy_brace inp lo s = Ok (s', n) -> LB (pos s').
 Proof.
   unfold handle_pointy_brace, from. intros E0 Hx H.
@@ -262,28 +281,41 @@ Proof.
     inv; fin. match goal with |- LB ?x => replace x with (S (pos s) + m) by lia end. eapply LB_gt; eassumption. }
   match type of H with (let '(_, _) := ?x in _) = _ => remember x as ml eqn:Eml; destruct ml as [ml [[[fc fd] fp] fm]] end.
   assert (forall m, ml = Some m -> LB (S (pos s) + m)) as Hml.
-  { intros m ->.
+  { intros m ->. destruct Hx as (Hcd & Hde & Hpi).
     destruct (Nat.leb (S (pos s) + 2) (len inp)); [|discriminate Eml].
     destruct (nth_error inp (S (pos s))) as [c|] eqn:Ec; [|discriminate Eml].
     destruct (nth_error inp (S (S (pos s)))) as [c1|] eqn:Ec1; [|discriminate Eml].
-    destruct (Hx c Ec) as [Hq Hbang]. rewrite Hq in Eml.
     assert (forall k, scan_html_tag (skipn (S (pos s)) inp) = Some k -> LB (S (pos s) + k)) as Htag.
     { intros k Hk. apply scan_html_tag_last in Hk. destruct Hk as (H1 & H2 & c' & Ec' & Hc'). eapply LB_gt; eassumption. }
     destruct (beqb c x21 && negb (f_comment s)) eqn:Eb.
-    - apply andb_true_iff in Eb. destruct Eb as [Eb _]. specialize (Hbang Eb).
-      apply andb_true_iff in Hbang. destruct Hbang as [Hb1 Hb2].
-      assert (beqb c1 x2d = true) as Hc1.
-      { apply peek_eq_nth in Hb1. rewrite Ec1 in Hb1. inversion Hb1; subst. reflexivity. }
-      rewrite Hc1, Hb2 in Eml. cbn [andb] in Eml.
-      destruct (peek_eq inp (S (pos s) + 3) x3e) eqn:E3.
-      { inversion Eml; subst. replace (S (pos s) + 4) with (S (S (pos s) + 3)) by lia. exact (peek_eq_LB _ _ E3 eq_refl). }
-      destruct (peek_eq inp (S (pos s) + 3) x2d && peek_eq inp (S (pos s) + 4) x3e) eqn:E4.
-      { apply andb_true_iff in E4. destruct E4 as [_ E4]. inversion Eml; subst.
-        replace (S (pos s) + 5) with (S (S (pos s) + 4)) by lia. exact (peek_eq_LB _ _ E4 eq_refl). }
-      destruct (scan_html_comment (skipn (S (S (pos s))) inp)) as [k|] eqn:Ek; [|discriminate Eml].
-      inversion Eml; subst. apply scan_html_comment_last in Ek. destruct Ek as (H1 & H2 & c' & Ec' & Hc').
-      replace (S (pos s) + S k) with (S (S (pos s)) + k) by lia. eapply LB_gt; eassumption.
-    - inversion Eml as [[K1 K2]]. apply Htag. symmetry. exact K1. }
+    - apply andb_true_iff in Eb. destruct Eb as [Eb _]. apply beqb_eq in Eb. subst c.
+      destruct (beqb c1 x2d && peek_eq inp (S (pos s) + 2) x2d) eqn:Ecm.
+      + destruct (peek_eq inp (S (pos s) + 3) x3e) eqn:E3.
+        { inversion Eml; subst. replace (S (pos s) + 4) with (S (S (pos s) + 3)) by lia. exact (peek_eq_LB _ _ E3 eq_refl). }
+        destruct (peek_eq inp (S (pos s) + 3) x2d && peek_eq inp (S (pos s) + 4) x3e) eqn:E4.
+        { apply andb_true_iff in E4. destruct E4 as [_ E4]. inversion Eml; subst.
+          replace (S (pos s) + 5) with (S (S (pos s) + 4)) by lia. exact (peek_eq_LB _ _ E4 eq_refl). }
+        destruct (scan_html_comment (skipn (S (S (pos s))) inp)) as [k|] eqn:Ek; [|discriminate Eml].
+        inversion Eml; subst. apply scan_html_comment_last in Ek. destruct Ek as (H1 & H2 & c' & Ec' & Hc').
+        replace (S (pos s) + S k) with (S (S (pos s)) + k) by lia. eapply LB_gt; eassumption.
+      + destruct (beqb c1 x5b) eqn:Ebr.
+        * apply beqb_eq in Ebr. subst c1.
+          destruct (negb (f_cdata s) && Nat.leb (S (pos s) + 3) (len inp)); [|discriminate Eml].
+          destruct (scan_html_cdata (skipn (S (pos s) + 2) inp)) as [k|] eqn:Ek; [|discriminate Eml].
+          destruct (Nat.ltb (len inp) (S (pos s) + k + 5)) eqn:El; [discriminate Eml|].
+          inversion Eml; subst. apply Hcd; first [reflexivity|assumption].
+        * destruct (negb (f_decl s)); [|discriminate Eml].
+          destruct (scan_html_declaration (skipn (S (S (pos s))) inp)) as [k|] eqn:Ek; [|discriminate Eml].
+          destruct (Nat.ltb (len inp) (S (pos s) + k + 2)) eqn:El; [discriminate Eml|].
+          inversion Eml; subst. apply Hde; try first [reflexivity|assumption].
+          unfold peek_eq at 1. unfold peek_is, peek. try rewrite Ec1. rewrite beqb_sym. exact Ecm.
+    - destruct (beqb c x3f) eqn:Eq.
+      + apply beqb_eq in Eq. subst c.
+        destruct (negb (f_pi s)); [|discriminate Eml]. cbv zeta in Eml.
+        destruct (Nat.ltb (len inp) (S (pos s) + opt0 (scan_html_processing_instruction (skipn (S (S (pos s))) inp)) + 3)) eqn:El;
+          [discriminate Eml|].
+        inversion Eml; subst. apply Hpi; first [reflexivity|assumption].
+      + inversion Eml as [[K1 K2]]. apply Htag. symmetry. exact K1. }
   destruct ml as [m|].
   - specialize (Hml m eq_refl). inv. apply adjust_pos in H. rewrite H. fin. exact Hml.
   - inv. fin. exact (LB_S _ _ E0 eq_refl).
